@@ -3,6 +3,7 @@ package diags
 import (
 	"fmt"
 	"strconv"
+	"strings"
 
 	"gopkg.in/yaml.v3"
 )
@@ -102,6 +103,10 @@ func NewPositionRange(lines []string, val *yaml.Node, minColumn int) (offsets Po
 		// comment) belongs to the value
 		lineIndex++
 		columnIndex = 1
+	} else if val.Style&yaml.TaggedStyle != 0 || val.Anchor != "" {
+		// the node position of a scalar with an explicit tag or an anchor is that tag or anchor,
+		// the value only begins after them
+		lineIndex, columnIndex = skipNodeProperties(lines, lineIndex, columnIndex)
 	}
 
 	for lineIndex <= len(lines) {
@@ -156,6 +161,24 @@ END:
 		}
 	}
 	return offsets
+}
+
+// skipNodeProperties moves past any `!tag` and `&anchor` tokens found at the given position.
+func skipNodeProperties(lines []string, lineIndex, columnIndex int) (int, int) {
+	for lineIndex >= 1 && lineIndex <= len(lines) {
+		line := lines[lineIndex-1]
+		if columnIndex < 1 || columnIndex > len(line) || (line[columnIndex-1] != '!' && line[columnIndex-1] != '&') {
+			break
+		}
+		end := strings.IndexByte(line[columnIndex-1:], ' ')
+		if end < 0 {
+			// nothing else on this line, the value starts on the next one
+			return lineIndex + 1, 1
+		}
+		columnIndex += end
+		columnIndex += countLeadingSpace(line[columnIndex-1:])
+	}
+	return lineIndex, columnIndex
 }
 
 func countLeadingSpace(line string) (i int) {
